@@ -1047,7 +1047,7 @@ def jobs(tier):
     # ---- keys of mixed representation (C02: every statement filters on key AND raw)
     for func, extra in (('ob_set', {}), ('ob_add', {}), ('ob_touch', {}), ('ob_incr', {}), ('ob_get', {}), ('ob_contains', {}), ('ob_pop', {}), ('ob_delete', {'via': 'delete'}),
                         ('ob_getitem', {'via': 'getitem'})):
-        out.append(dict(id=func[3:] + '.mixedkeys', func=func, params=dict(N=2, keypool=True, kinds=('int',), no_cull=True, tags=False, **extra), tags=['C02', 'C03'], functions=FUNCS[func] + ['core.Disk.put'],
+        out.append(dict(id=func[3:] + '.mixedkeys', func=func, params=dict(N=2, keypool=True, kinds=('int',), no_cull=True, tags=False, **extra), tags=['C02', 'C03', 'C12'], functions=FUNCS[func] + ['core.Disk.put'],
                         weight=30, must_reach=['mixed_keys']))
     out.append(dict(id='put.pairs.mixedkeys', func='ob_put_pairs', params=dict(N=1, kinds=('int',)), tags=['C02'], functions=FUNCS['ob_put_pairs'], weight=2))
     out.append(dict(id='iter.mixedkeys', func='ob_iter', params=dict(N=2, keypool=True, kinds=('int',), how='iter'), tags=['C02', 'C03'], functions=FUNCS['ob_iter'], weight=10))
